@@ -1,29 +1,38 @@
-From Coq Require Import List Arith NArith ZArith Bool Lia.
+(* Model of the record bookkeeping of nautilus/bounds/union.py (class Union): split (153-229), trim (231-267),
+   sample (291-327, records only).  Definitions only; proofs in UnionProofs.v, property theorems in P_C13.v.
+
+   Four parallel per-ellipsoid lists as in the code: bounds (opaque ids), points_bounds (lists of point ids),
+   log_v_all (here: exact linear volumes exp(log_v) as rationals) and block.  Everything the implementation obtains
+   from GaussianMixture / the MVEE construction / the overlap test is oracle data on the operation; the step CHECKS
+   the obligations that data must satisfy and returns None otherwise. *)
+From Coq Require Import List Arith NArith ZArith QArith Bool.
 Import ListNotations.
 Require Import NV.Base.
 Local Open Scope nat_scope.
 
-Definition pid := positive. Definition bid := positive.
-(* four parallel per-ellipsoid lists; volumes are order-preserving integer ranks of log_v *)
-Record ust := mkU { bs : list bid; pbs : list (list pid); vols : list Z; blk : list bool }.
+Definition upid := positive. Definition ubid := positive.
+Record ust := mkU { bs : list ubid; pbs : list (list upid); vols : list Q; blk : list bool }.
 
 Fixpoint remove_nth {A} (i : nat) (l : list A) : list A :=
   match l, i with [], _ => [] | _ :: r, O => r | x :: r, S j => x :: remove_nth j r end.
-Fixpoint set_nth {A} (i : nat) (v : A) (l : list A) : list A :=
-  match l, i with [], _ => [] | _ :: r, O => v :: r | x :: r, S j => x :: set_nth j v r end.
+Fixpoint uset_nth {A} (i : nat) (v : A) (l : list A) : list A :=
+  match l, i with [], _ => [] | _ :: r, O => v :: r | x :: r, S j => x :: uset_nth j v r end.
 
+(* one pass of split(): the attempt on the unblocked ellipsoid of largest volume *)
 Inductive attempt :=
-| ABlocked (idx : nat)                                  (* new volume larger: flag set, try the next one *)
-| ARefused (idx : nat)                                  (* would overlap and overlap is not allowed: stop, nothing changes *)
-| ASuccess (idx : nat) (labels : list bool) (b0 b1 : bid) (v0 v1 : Z).
-Inductive uop := Split (allow_overlap : bool) (ats : list attempt) | Trim (decision : option nat).
+| ABlocked (idx : nat)                                  (* summed volume of the halves larger: flag set, recurse *)
+| ARefused (idx : nat)                                  (* halves would overlap another ellipsoid and overlap is not allowed: return False *)
+| ASuccess (idx : nat) (labels : list bool) (b0 b1 : ubid) (v0 v1 : Q).
+Inductive uop := Split (allow_overlap : bool) (ats : list attempt) | Trim (decision : option nat) | Sample.
 
 Section M.
-Variable n_min : nat.
-Fixpoint argmax_go (i : nat) (vs : list Z) (bl : list bool) (best : option (nat * Z)) : option (nat * Z) :=
+Variable n_min : nat.      (* n_points_min *)
+
+(* np.argmax(np.where(~block, log_v_all, -inf)): first maximum among the unblocked *)
+Fixpoint argmax_go (i : nat) (vs : list Q) (bl : list bool) (best : option (nat * Q)) : option (nat * Q) :=
   match vs, bl with
   | v :: vs', b :: bl' =>
-    let best' := if b then best else match best with None => Some (i, v) | Some (_, bv) => if Z.ltb bv v then Some (i, v) else best end in
+    let best' := if b then best else match best with None => Some (i, v) | Some (_, bv) => if Qlt_le_dec bv v then Some (i, v) else best end in
     argmax_go (S i) vs' bl' best'
   | _, _ => best
   end.
@@ -31,28 +40,30 @@ Definition argmax (u : ust) : option nat := option_map fst (argmax_go 0 (vols u)
 
 Fixpoint split_go (allow : bool) (ats : list attempt) (u : ust) : option (ust * bool) :=
   match argmax u with
-  | None => match ats with [] => Some (u, false) | _ => None end
+  | None => match ats with [] => Some (u, false) | _ => None end        (* `if not np.any(~self.block): return False` *)
   | Some idx =>
     match ats with
     | [] => None
-    | ABlocked i :: rest => if Nat.eqb i idx then split_go allow rest (mkU (bs u) (pbs u) (vols u) (set_nth idx true (blk u))) else None
+    | ABlocked i :: rest => if Nat.eqb i idx then split_go allow rest (mkU (bs u) (pbs u) (vols u) (uset_nth idx true (blk u))) else None
     | ARefused i :: rest => if Nat.eqb i idx && negb allow then (match rest with [] => Some (u, false) | _ => None end) else None
     | ASuccess i labels b0 b1 v0 v1 :: rest =>
-      match nth_error (pbs u) idx, rest with
-      | Some pts, [] =>
+      match nth_error (pbs u) idx, nth_error (vols u) idx, rest with
+      | Some pts, Some vold, [] =>
         if negb (Nat.eqb i idx) then None else
         if negb (Nat.eqb (length labels) (length pts)) then None else
         let p1 := fmask labels pts in
         let p0 := fmask (map negb labels) pts in
-        if negb (Nat.leb n_min (length p0) && Nat.leb n_min (length p1)) then None else
+        if negb (Nat.leb n_min (length p0) && Nat.leb n_min (length p1)) then None else     (* both halves keep the minimum *)
+        if negb (Qle_bool (v0 + v1) vold) then None else                                    (* accepted only if the volume does not grow *)
         Some (mkU (remove_nth idx (bs u) ++ [b0; b1]) (remove_nth idx (pbs u) ++ [p0; p1])
                   (remove_nth idx (vols u) ++ [v0; v1])
                   (remove_nth idx (blk u) ++ [Nat.ltb (length p0) (2 * n_min); Nat.ltb (length p1) (2 * n_min)]), true)
-      | _, _ => None
+      | _, _, _ => None
       end
     end
   end.
 
+(* trim(): the decision (which ellipsoid, if any) is oracle data; the repaired code removes all four entries *)
 Definition trim (dec : option nat) (u : ust) : option (ust * bool) :=
   match dec with
   | None => Some (u, false)
@@ -61,6 +72,33 @@ Definition trim (dec : option nat) (u : ust) : option (ust * bool) :=
     if negb (Nat.ltb i (length (bs u))) then None else
     Some (mkU (remove_nth i (bs u)) (remove_nth i (pbs u)) (remove_nth i (vols u)) (remove_nth i (blk u)), true)
   end.
+
+(* the code before the repair kept the flag of the dropped ellipsoid (frozen, regression witness only) *)
+Definition trim_asis (dec : option nat) (u : ust) : option (ust * bool) :=
+  match dec with
+  | None => Some (u, false)
+  | Some i =>
+    if Nat.leb (length (bs u)) 1 then None else
+    if negb (Nat.ltb i (length (bs u))) then None else
+    Some (mkU (remove_nth i (bs u)) (remove_nth i (pbs u)) (remove_nth i (vols u)) (blk u), true)
+  end.
+
 Definition ustep (u : ust) (o : uop) : option (ust * bool) :=
-  match o with Split allow ats => split_go allow ats u | Trim d => trim d u end.
+  match o with Split allow ats => split_go allow ats u | Trim d => trim d u | Sample => Some (u, true) end.
+
+(* a whole history; the points trimmed away are accumulated *)
+Fixpoint urun (u : ust) (trimmed : list upid) (ops : list uop) : option (ust * list upid) :=
+  match ops with
+  | [] => Some (u, trimmed)
+  | o :: r =>
+    match ustep u o with
+    | None => None
+    | Some (u', _) =>
+      let tr' := match o with Trim (Some i) => nth i (pbs u) [] ++ trimmed | _ => trimmed end in
+      urun u' tr' r
+    end
+  end.
+
+(* Union.compute: one ellipsoid around all points *)
+Definition uinit (b : ubid) (pts : list upid) (v : Q) : ust := mkU [b] [pts] [v] [Nat.ltb (length pts) (2 * n_min)].
 End M.
